@@ -1300,6 +1300,28 @@ func c16Short(s string) string {
 // and which cpuallocator's discoverCacheGroups answers with a deliberate sanity-check panic.
 // Every such L2 domain is split at the node boundary (new unique cache and cluster ids). The
 // repaired M is what gets written and what the oracle uses. Idempotent (replay re-applies it).
+// c16MovableOnlyNode turns, on every fifth generated machine (decided by the machine's name, no PRNG draw), one
+// CPU-bearing DRAM node other than node 0 that has memory into a node whose memory is onlined movable-only
+// (movable_node / online_movable set-ups): listed in has_memory, absent from has_normal_memory. Such a node HAS memory,
+// so the documented pool tree keeps its NUMA pool. Not applied in replay (the witness stores the machine as run).
+func c16MovableOnlyNode(m *sysgen.Machine) bool {
+	h := hashStr(m.Name)
+	if h%5 != 0 {
+		return false
+	}
+	var cand []int
+	for i, n := range m.Nodes {
+		if n.ID > 0 && n.Type == sysgen.DRAM && len(n.CPUs) > 0 && n.MemKB > 0 && n.Normal {
+			cand = append(cand, i)
+		}
+	}
+	if len(cand) == 0 {
+		return false
+	}
+	m.Nodes[cand[int((h/5)%uint64(len(cand)))]].Normal = false
+	return true
+}
+
 func c16SplitL2AtNodes(m *sysgen.Machine) bool {
 	nodesOf := map[int]map[int]bool{}
 	for _, c := range m.CPUs {
@@ -1453,6 +1475,9 @@ func runC16(ctx *Ctx) {
 		rng := ctx.RNG.Fork()
 		if c16SplitL2AtNodes(m) {
 			ctx.Count("machines_l2_split_at_node_boundary")
+		}
+		if c16MovableOnlyNode(m) {
+			ctx.Count("machines_with_movable_only_cpu_node")
 		}
 		mod := c16NewModel(m)
 		var cfgs []*c16Config
